@@ -270,8 +270,12 @@ def add_fact(facts, text, truth):
     facts.append((text, truth))
     return True
 
+ERRNO = r'(?:errno|\*__errno_location)'   # flat() spelling of errno with and without the libc macro expanded
+BACK = {}   # function name -> states of the paths that reach a back edge (the loop-continuing paths)
+
 def enum_paths(fn, limit=20000):
     paths = []
+    BACK[fn.name] = []
 
     def apply_helper(P, name, args, full):
         """fork P over the paths of helper `name`; returns the list of continued states (or None if not inlinable)."""
@@ -391,6 +395,11 @@ def enum_paths(fn, limit=20000):
             if decided is not None and (k == 0) != decided:
                 continue
             if s in P.blocks and not (P.blocks.count(s) < P.hdrvisits or revisitable(fn, s, P)):
+                PB = P.copy()
+                if not (cond is not None and len(succs) == 2 and decided is None) or add_fact(PB.facts, PB.subst(cond), k == 0):
+                    PB.blocks = P.blocks + [s]
+                    if len(BACK[fn.name]) < limit:
+                        BACK[fn.name].append(PB)
                 continue
             P2 = P.copy()
             if cond is not None and len(succs) == 2 and decided is None:
@@ -515,6 +524,68 @@ def known_nonzero(P, expr):
         if (f == '!' + e or f == '!(' + e + ')') and not t:
             return True
     return False
+
+def split_top(e, op):
+    """split e at the top-level occurrences of the binary operator op ('||' or '&&'); [e] if there is none."""
+    e = norm(e)
+    out, d, last, i = [], 0, 0, 0
+    while i < len(e):
+        ch = e[i]
+        if ch == '(':
+            d += 1
+        elif ch == ')':
+            d -= 1
+        elif d == 0 and e.startswith(op, i):
+            out.append(e[last:i]); last = i + len(op); i += len(op); continue
+        i += 1
+    out.append(e[last:])
+    return [norm(x) for x in out]
+
+def closed_facts(P):
+    """the path's facts plus what follows propositionally from compound conditions (a || b false -> both false,
+    a && b false with a true -> b false, ...), to a fixpoint."""
+    facts = [(norm(f), t) for f, t in P.facts]
+    known = {flat(f): t for f, t in facts if not re.search(r'\|\||&&', f) or len(split_top(f, '||')) == 1 and len(split_top(f, '&&')) == 1}
+    def val(e):
+        fe = flat(e)
+        if fe in known:
+            return known[fe]
+        for op, unit in (('||', False), ('&&', True)):
+            parts = split_top(e, op)
+            if len(parts) > 1:
+                vs = [val(x) for x in parts]
+                if any(v is (not unit) for v in vs):
+                    return not unit
+                if all(v is unit for v in vs):
+                    return unit
+                return None
+        return None
+    def force(e, t):
+        ch = False
+        fe = flat(e)
+        for op, unit in (('||', False), ('&&', True)):
+            parts = split_top(e, op)
+            if len(parts) > 1:
+                if t == unit:
+                    for x in parts:
+                        ch |= force(x, unit)
+                else:
+                    unk = [x for x in parts if val(x) is None]
+                    if len(unk) == 1 and all(val(x) is unit for x in parts if x is not unk[0]):
+                        ch |= force(unk[0], not unit)
+                return ch
+        if fe not in known:
+            known[fe] = t
+            facts.append((norm(e), t))
+            return True
+        return False
+    for _ in range(8):
+        ch = False
+        for f, t in list(facts):
+            ch |= force(f, t)
+        if not ch:
+            break
+    return facts
 
 def fact_holds(P, text, truth):
     t0 = norm(text)
@@ -870,6 +941,28 @@ def run_rules(c, funcs, src_text, thorough):
         zero_leaves = any(p.ret is not None and any(("select(" in f and ((norm(f).startswith("!") and t))) for f, t in p.facts) for p in P[fname])
         if not zero_leaves:
             bad.append("a zero return of select() (timeout) does not leave the function")
+        # progress: an iteration that goes round again has either transferred something or seen an interrupted call —
+        # a transfer of 0 bytes (the peer closed) must leave the loop, or the module spins on a closed socket for ever
+        nback = 0
+        for p in BACK.get(fname, []):
+            evs = [e for e in p.events if e[0] == prim]
+            if not evs:
+                continue
+            nback += 1
+            x = flat(evs[-1][2])
+            nz = False
+            for f, t in closed_facts(p):
+                ff = flat(f)
+                if ff in (x + "==0", x + "<=0", "!" + x, x + ">=0") and not t:
+                    nz = True
+                if ff in (x + "!=0", x + ">0", x + "<0", x) and t:
+                    nz = True
+                # errno says nothing about a transfer of 0 bytes (it is not set then): `n == 0 && errno == EINTR -> retry`
+                # spins on a stale EINTR of the host process (finding F11), so no errno test is accepted here
+            if not nz:
+                bad.append("the loop goes round again after %s() although it may have returned 0 (peer closed / nothing transferred): select() reports the closed socket ready at once, so the module never returns (path %s)" % (prim, p.blocks))
+        if nback == 0:
+            bad.append("no loop-continuing path after %s() found (the transfer loop was expected to retry short transfers)" % prim)
         c.check(not bad and nio > 0, "C20.4", fname + "|select-before-" + prim, line_of(fname), "every %s() is preceded by select() with &tv (tv_sec = timeout); timeout (select()==0) returns" % prim, "; ".join(sorted(set(bad))))
     bad = []
     for f in ("_whawty_send_request", "_whawty_recv_response"):
